@@ -20,7 +20,13 @@
 static struct timerrec * R[NMAX + 2];
 static struct timerqueue * Q;
 static size_t pick(size_t n) { size_t v = nd_size(); return n ? v % n : 0; }
-static struct timeval ndtv(void) { struct timeval t; t.tv_sec = (time_t)(nd_u64() % 4); t.tv_usec = (suseconds_t)(nd_u64() % 3); return t; }	/* small domain: many ties */
+/* times: seconds from a 6-value set spanning the whole time_t range (0, 1, 2, 2^31+5, 2^33, 2^62) x 3 microsecond values: ties frequent,
+ * and differences that do not fit an int are present */
+static struct timeval ndtv(void)
+{
+	static const int64_t SEC[6] = {0, 1, 2, 2147483653LL, 8589934592LL, 4611686018427387904LL};
+	struct timeval t; t.tv_sec = (time_t)SEC[nd_u64() % 6]; t.tv_usec = (suseconds_t)(nd_u64() % 3); return t;
+}
 static struct timerrec ** slot(size_t i) { return (struct timerrec **)ptrlist_get(Q->H->elems, i); }
 /* build a heap of n records; returns 0 if the drawn keys violate heap order (caller skips: same effect as an assumption) */
 static int mk(size_t n)
